@@ -114,6 +114,26 @@ pub fn directed_topos(rng: &mut Rng) -> Vec<Topo> {
     v.push(topo_from_spec(rng, 3, &[1, 1, 1, 1, 1], &[vec![], vec![], vec![], vec![0, 1], vec![3]], &[], "mesh3"));
     // on-path: deep chain
     v.push(topo_from_spec(rng, 1, &[1, 1, 1, 1, 1], &[vec![], vec![0], vec![1], vec![2], vec![3]], &[], "chain5"));
+    // several cores per ISD, every non-core AS under one core only (plan rows up_core / core_down)
+    v.extend(plan_topos(rng).into_iter().take(2));
+    v
+}
+
+/// topologies that put (src, dst) pairs into every row of the ListSegmentPlan table: an ISD
+/// with several cores where each non-core AS hangs under ONE core only (its up segments reach
+/// that core alone), a single-core ISD, and two ISDs joined by core links
+pub fn plan_topos(rng: &mut Rng) -> Vec<Topo> {
+    let mut v = vec![];
+    // ISD 1: cores 0,1 (linked); 2 under core 0, 3 under core 1, 4 under 2
+    v.push(topo_from_spec(rng, 2, &[1, 1, 1, 1, 1], &[vec![], vec![], vec![0], vec![1], vec![2]], &[], "plan_twocores"));
+    // three cores in a chain-like mesh, leaves under the outer ones
+    v.push(topo_from_spec(rng, 3, &[1, 1, 1, 1, 1], &[vec![], vec![], vec![], vec![0], vec![2]], &[], "plan_threecores"));
+    // ISD 1 (core 0, child 2, grandchild 4) and ISD 2 (core 1, child 3)
+    v.push(topo_from_spec(rng, 2, &[1, 2, 1, 2, 1], &[vec![], vec![], vec![0], vec![1], vec![2]], &[], "plan_twoisd"));
+    // ISD 1 with two cores + ISD 2 with one core
+    v.push(topo_from_spec(rng, 3, &[1, 1, 2, 1, 1, 2], &[vec![], vec![], vec![], vec![0], vec![1], vec![2]], &[], "plan_mixed"));
+    // single core, two branches
+    v.push(topo_from_spec(rng, 1, &[1, 1, 1, 1], &[vec![], vec![0], vec![0], vec![1]], &[], "plan_singlecore"));
     v
 }
 
@@ -450,7 +470,7 @@ impl World {
         if out.len() + 4 <= budget {
             let mut n_x = 0;
             for c in self.xover_pair_cases(rng, now, sum) {
-                if out.len() >= budget || n_x >= 6 { break; }
+                if out.len() >= budget || n_x >= 5 { break; }
                 out.push(c); n_x += 1;
             }
         }
@@ -658,7 +678,7 @@ impl World {
 }
 
 // ------------------------------------------------------------------ joinability (C01, last sentence)
-pub struct JoinCase { pub tag: String, pub src: u64, pub dst: u64, pub cores: Vec<u64>, pub segs: Vec<Vec<u64>>, pub offered: usize }
+pub struct JoinCase { pub tag: String, pub src: u64, pub dst: u64, pub cores: Vec<u64>, pub segs: Vec<Vec<u64>>, pub offered: usize, pub row: (u64, u64, u64) }
 impl JoinCase {
     pub fn coq(&self) -> String {
         format!("mkJCase {} {} {} {} {}", self.src, self.dst,
@@ -666,47 +686,102 @@ impl JoinCase {
             coq_list(self.segs.iter().map(|s| coq_list(s.iter().map(|x| x.to_string())))), self.offered)
     }
     pub fn human(&self) -> String {
-        format!("topo={} {:x}->{:x} segments={} offered={}", self.tag, self.src, self.dst, self.segs.len(), self.offered)
+        format!("topo={} {:x}->{:x} plan-row={:?} segments={} offered={}", self.tag, self.src, self.dst, self.row, self.segs.len(), self.offered)
     }
 }
+impl Topo {
+    /// every segment SCION beaconing produces over this topology, as AS sequences in
+    /// construction order (computed here, independently of the registry): non-core segments =
+    /// every parent->child walk starting at a core AS; core segments = every simple walk over
+    /// core links between core ASes.  Parallel links give the same AS sequence (deduplicated).
+    pub fn all_segments(&self) -> Vec<Vec<u64>> {
+        let cores: Vec<u64> = self.ases.iter().filter(|a| a.core).map(|a| a.ia).collect();
+        let mut children: std::collections::BTreeMap<u64, Vec<u64>> = Default::default();
+        let mut corenb: std::collections::BTreeMap<u64, Vec<u64>> = Default::default();
+        for l in self.links.iter().filter(|l| l.up) {
+            match l.ty { 1 => children.entry(l.a).or_default().push(l.b), 2 => children.entry(l.b).or_default().push(l.a),
+                         3 => { corenb.entry(l.a).or_default().push(l.b); corenb.entry(l.b).or_default().push(l.a); } _ => {} }
+        }
+        let mut out: std::collections::BTreeSet<Vec<u64>> = Default::default();
+        fn down(cur: &mut Vec<u64>, ch: &std::collections::BTreeMap<u64, Vec<u64>>, out: &mut std::collections::BTreeSet<Vec<u64>>) {
+            if cur.len() >= 2 { out.insert(cur.clone()); }
+            if cur.len() >= 8 { return; }
+            for &c in ch.get(cur.last().unwrap()).map(|v| v.as_slice()).unwrap_or(&[]) {
+                if cur.contains(&c) { continue; }
+                cur.push(c); down(cur, ch, out); cur.pop();
+            }
+        }
+        fn core(cur: &mut Vec<u64>, nb: &std::collections::BTreeMap<u64, Vec<u64>>, out: &mut std::collections::BTreeSet<Vec<u64>>) {
+            if cur.len() >= 2 { out.insert(cur.clone()); }
+            if cur.len() >= 6 { return; }
+            for &c in nb.get(cur.last().unwrap()).map(|v| v.as_slice()).unwrap_or(&[]) {
+                if cur.contains(&c) { continue; }
+                cur.push(c); core(cur, nb, out); cur.pop();
+            }
+        }
+        for &c in &cores { let mut cur = vec![c]; down(&mut cur, &children, &mut out); let mut cur = vec![c]; core(&mut cur, &corenb, &mut out); }
+        out.into_iter().collect()
+    }
+}
+
 impl World {
-    /// for AS pairs: the segments the control plane lists for the pair and the number of paths offered
+    /// for AS pairs (and, per source, the wildcard "any core" destinations): ALL segments of the
+    /// topology (independent beaconing), the row of the lookup plan the pair falls into, and
+    /// what the real lookup path (registry lister + ListSegmentPlan + combinator) offers
     pub fn join_cases(&self, rng: &mut Rng, max: usize) -> Vec<JoinCase> {
         let reg = SegmentRegistry::from_topology(&self.real);
         let when = chrono::DateTime::<chrono::Utc>::from_timestamp(self.ts as i64, 0).unwrap();
         let cores: Vec<u64> = self.topo.ases.iter().filter(|a| a.core).map(|a| a.ia).collect();
+        let segs = self.topo.all_segments();
+        let isd = |x: u64| x >> 48;
         let mut pairs: Vec<(u64, u64)> = vec![];
-        for s in &self.topo.ases { for d in &self.topo.ases { if s.ia != d.ia { pairs.push((s.ia, d.ia)); } } }
+        for s in &self.topo.ases {
+            for d in &self.topo.ases { if s.ia != d.ia { pairs.push((s.ia, d.ia)); } }
+            // wildcard destinations: any core of each ISD
+            let mut isds: Vec<u64> = self.topo.ases.iter().map(|a| isd(a.ia)).collect(); isds.sort(); isds.dedup();
+            for i in isds { pairs.push((s.ia, i << 48)); }
+        }
         rng.shuffle(&mut pairs);
+        // rows of the plan table not seen yet first
+        let row_of = |s: u64, d: u64| -> (u64, u64, u64) {
+            let n_cores = cores.iter().filter(|c| isd(**c) == isd(s)).count();
+            let ctx = if isd(s) != isd(d) { 2 } else if n_cores == 1 { 0 } else { 1 };
+            let sk = if cores.contains(&s) { 0 } else { 1 };
+            let dk = if d & 0xffff_ffff_ffff == 0 { 2 } else if cores.contains(&d) { 0 } else { 1 };
+            (ctx, sk, dk)
+        };
+        let mut seen_rows = std::collections::BTreeSet::new();
+        pairs.sort_by_key(|(s, d)| if seen_rows.insert(row_of(*s, *d)) { 0 } else { 1 });
         let mut out = vec![];
         for (s, d) in pairs {
             if out.len() >= max { break; }
-            let segs: Vec<Vec<u64>> = match reg.endhost_list_segments(IsdAsn(s), IsdAsn(s), IsdAsn(d)) {
-                Ok(ls) => match ls.into_path_segments(&self.real, when, 0, 63) {
-                    Ok(ps) => ps.iter_all().map(|seg| seg.as_entries.iter().map(|e| e.entry().local.0).collect()).collect(),
-                    Err(_) => continue,
-                },
-                Err(_) => vec![],
+            let wildcard = d & 0xffff_ffff_ffff == 0;
+            let offered = if wildcard {
+                // wildcard lookups yield segments, not paths: count the listed segments
+                match reg.endhost_list_segments(IsdAsn(s), IsdAsn(s), IsdAsn(d)) {
+                    Ok(ls) => ls.into_path_segments(&self.real, when, 0, 63).map(|ps| ps.iter_all().count()).unwrap_or(0),
+                    Err(_) => 0,
+                }
+            } else {
+                reg.paths(IsdAsn(s), IsdAsn(d), when, &self.real).map(|p| p.len()).unwrap_or(0)
             };
-            let offered = reg.paths(IsdAsn(s), IsdAsn(d), when, &self.real).map(|p| p.len()).unwrap_or(0);
-            out.push(JoinCase { tag: self.topo.tag.clone(), src: s, dst: d, cores: cores.clone(), segs, offered });
+            out.push(JoinCase { tag: self.topo.tag.clone(), src: s, dst: d, cores: cores.clone(), segs: segs.clone(), offered, row: row_of(s, d) });
         }
         out
     }
 }
 
-
 // ------------------------------------------------------------------ spliced segment changes
-/// an authentic hop field of AS `ia`, usable as the hop ending (c: travel direction) a segment
-/// or starting one: the SegID its MAC verifies with, and a neighbouring hop field as filler
+/// an authentic hop field of AS `ia`: the SegID its MAC verifies with, and a neighbouring hop
+/// field of the same segment as filler
 struct OwnedHop { ia: u64, hop: Hop, beta: u16, ts: u32, filler: Hop }
 
 impl World {
     /// link type of interface `ifid` at AS `x` as the router sees it: 0 core, 1 parent, 2 child, 3 peer
     fn if_type(&self, x: u64, ifid: u16) -> Option<u8> {
         for l in &self.topo.links {
-            let ty = if l.a == x && l.aif == ifid { Some(l.ty) } else if l.b == x && l.bif == ifid { Some(match l.ty { 1 => 2, 2 => 1, t => t }) } else { None };
             // ty: x IS ty OF the other end (0 peer, 1 parent, 2 child, 3 core)
+            let ty = if l.a == x && l.aif == ifid { Some(l.ty) } else if l.b == x && l.bif == ifid { Some(match l.ty { 1 => 2, 2 => 1, t => t }) } else { None };
             if let Some(t) = ty { return Some(match t { 3 => 0, 2 => 1, 1 => 2, _ => 3 }); }
         }
         None
@@ -730,6 +805,9 @@ impl World {
         v
     }
 
+    /// for the ordered pairs (arrival link type, departure link type) realizable at the ASes of
+    /// this topology: a packet of two 2-hop segments built from AUTHENTIC hop fields whose
+    /// crossover at AS X uses exactly that pair, injected at X on the arrival interface
     pub fn xover_pair_cases(&self, rng: &mut Rng, now: u32, sum: &mut Summary) -> Vec<Case> {
         let stock = self.owned_hops(rng);
         let mut by_pair: std::collections::BTreeMap<(u8, u8), Vec<Pkt>> = Default::default();
@@ -760,7 +838,7 @@ impl World {
         // the invalid core -> core splice first when this topology has one
         pairs.sort_by_key(|p| if *p == (0, 0) { 0 } else { 1 });
         let mut out = vec![];
-        for p in pairs {
+        for p in pairs.into_iter().take(5) {
             let pk = rng.pick(&by_pair[&p]).clone();
             let at = pk.src;
             let h1 = &pk.hops[1];
